@@ -6,7 +6,7 @@
    Json.v and established per run by the correspondence and the strict-content round
    trip oracle; its proof is stated below and not yet closed (partial). *)
 From Coq Require Import String List ZArith Bool.
-From Prov Require Import Str Sexp Tables Nsm NsmProofs Values Record World Jtree Json JsonProofs.
+From Prov Require Import Str Sexp Tables Nsm NsmProofs Values Record World Jtree Json JsonProofs IsoProofs TimeProofs.
 Import ListNotations.
 Open Scope string_scope.
 
@@ -40,6 +40,16 @@ Proof. exact json_value_roundtrip_lang. Qed.
 Print Assumptions C01_value_lang.
 
 (* the decoder only ever builds well-formed documents *)
+(* datetimes: isoformat() -> the ISO reader gives the datetime back, for every valid
+   datetime (years 1..9999, microseconds, offsets of whole minutes) *)
+Theorem C01_iso_roundtrip : forall t, valid_dt t = true -> iso_parse (iso_print t) = Some t.
+Proof. exact iso_roundtrip. Qed.
+Print Assumptions C01_iso_roundtrip.
+Theorem C01_value_time : forall c m t, Builtins m -> valid_dt t = true ->
+  reinsert c m (VTime t) = Done m (Some (VTime t)).
+Proof. exact json_value_roundtrip_time. Qed.
+Print Assumptions C01_value_time.
+
 Theorem C01_decoded_wellformed : forall ft t nd, decode_doc ft t = OK nd ->
   WorldProofs.DCoh nd /\ StrProofs.uniq (dbundles nd).
 Proof. exact decode_doc_inv. Qed.
